@@ -136,7 +136,7 @@ example : step c (.set 0 0 (.atom (.par 1 0))) w0 = (.raised .value, w0, []) := 
 example : step c (.set 0 0 (.atom (.lit 50))) w0 = (.raised .value, w0, []) := by decide
 /-- constant violation with a valid-valued reference (the guard used to run after the relink) -/
 example : step c (.set 0 1 (.atom (.par 0 0))) w0 ≠ (.ok, w0, []) ∧
-    (step c (.set 0 1 (.atom (.fn [(0, 0)] 4 false))) w0).1 = .raised .type_ := by decide
+    (step c (.set 0 1 (.atom (.fn [(0, 0)] 4 false none))) w0).1 = .raised .type_ := by decide
 /-- `update`: the first key is applied, the second rejected -/
 example : (update c 0 [(0, .atom (.lit 3)), (1, .atom (.lit 7))] w0).1 = .raised .type_ := by decide
 
